@@ -1,5 +1,6 @@
 import Gca.Generated.Guards
 import Gca.Timeslot
+import Gca.Client.Model
 /-
 Obligations `generated = specification` for the integer guards, conversions
 and index computations that the extractor transcribes from the Go source
@@ -580,5 +581,32 @@ theorem server_ban_rule (n : BitVec 64) (nb ob : Bool) :
     Gen.AuthServersPOST.c1 n nb ob = ob ∧ Gen.AuthServersPOST.c2 n nb ob = !nb := ⟨rfl, rfl⟩
 theorem authServersPOST_kinds : Gen.AuthServersPOST.condKinds = ["if-exit", "if-exit", "if-exit"] := by decide
 theorem validateMigration_kinds : Gen.ValidateMigration.condKinds = ["if-exit"] := by decide
+
+/-! ### C09 / C11: the reporting loop: a record is sent only after its save succeeded and only if newer; sync scheduling -/
+
+/-- The branch after the save is an early `continue` on error (so nothing is sent for a refused
+reading), and the send is guarded by "newer than the latest record". -/
+theorem sendloop_kinds : Gen.SendLoop.condKinds = ["if", "if-exit", "if", "if", "if"] := by decide
+theorem sendloop_save_guard (errB okB : Bool) (latest ts : BitVec 32) (st ticks : BitVec 64) :
+    Gen.SendLoop.c1 errB latest okB st ticks ts = errB := rfl
+theorem sendloop_newer_only (errB okB : Bool) (latest ts : BitVec 32) (st ticks : BitVec 64) :
+    Gen.SendLoop.c2 errB latest okB st ticks ts = decide (ts.toNat > latest.toNat) ∧
+    Gen.SendLoop.c3 errB latest okB st ticks ts = decide (ts.toNat > latest.toNat) := by
+  unfold Gen.SendLoop.c2 Gen.SendLoop.c3
+  simp [BitVec.ult]
+/-- A sync round starts when the counter reaches 60, or after a failed round when `ticks % 4 = 3`
+(`Cl.shouldSync`), for every counter value that a loop which resets at 60 can reach. -/
+theorem sync_schedule (errB okB : Bool) (latest ts : BitVec 32) (st ticks : BitVec 64) (h : ticks.toNat < 2^62) :
+    Gen.SendLoop.c4 errB latest okB st ticks ts = Gca.Cl.shouldSync ticks.toNat st.toNat := by
+  have hr : (BitVec.srem ticks (4#64)).toNat = ticks.toNat % 4 :=
+    srem64_nonneg ticks (4#64) (by omega) (by decide)
+  have hi : ticks.toInt = ticks.toNat := by rw [toInt64]; omega
+  unfold Gen.SendLoop.c4 Gca.Cl.shouldSync
+  rw [Bool.eq_iff_iff]
+  simp only [BitVec.sle, Bool.or_eq_true, Bool.and_eq_true, decide_eq_true_eq, beq_iff_eq,
+    ← BitVec.toNat_inj, hr, hi, BitVec.toNat_ofNat, Nat.reducePow, Nat.reduceMod, ge_iff_le]
+  have h60 : (60#64).toInt = 60 := by decide
+  rw [h60]
+  omega
 
 end Gca.Tie
